@@ -125,6 +125,16 @@ def make_rows(case):
     if ydt:
       ex['y'] = ((np.arange(n, dtype=np.int64) + 1 + 16 * ci) / 4.0 +
                  0.125).astype(ydt)
+    layout = case.get('m_layout')
+    if layout:
+      # a 2-d feature table in row-major, column-major (np.asfortranarray) or
+      # transposed-view memory layout: the logical content is the same
+      m = (np.arange(n * 3, dtype=np.int64).reshape((n, 3)) + 100 * ci).astype(np.float32)
+      if layout == 'F':
+        m = np.asfortranarray(m)
+      elif layout == 'T':
+        m = np.ascontiguousarray(m.T).T
+      ex['m'] = m
     out[h2b(c['id'])] = ex
   return out
 
@@ -502,6 +512,8 @@ def labels(case):
   ls = []
   if b'' in ids:
     ls.append('empty_id')
+  if case.get('m_layout'):
+    ls.append('2d_feature:' + case['m_layout'])
   if any(i.endswith(b'\x00') for i in ids):
     ls.append('trailing_zero_id')
   if _is_prefix_related(ids):
@@ -643,6 +655,7 @@ def history_strategy(draw, tier):
       'clients': clients,
       'x_dtype': draw(st.sampled_from(['int32', 'int64'])),
       'y_dtype': draw(st.sampled_from([None, 'float32', 'float64'])),
+      'm_layout': draw(st.sampled_from([None, None, 'C', 'F', 'T'])),
       'split': draw(st.integers(0, 8)),
       'ops': draw(st.lists(_op(), min_size=draw(st.sampled_from(min_ops)),
                            max_size=max_ops)),
